@@ -6,6 +6,7 @@ import (
 	"math/big"
 	"net/http"
 	"net/http/httptest"
+	"runtime"
 	"strings"
 	"sync"
 	"time"
@@ -223,20 +224,58 @@ func newEvWorld(groups string) *evWorld {
 }
 
 // give the loop v and wait until it is back at its select (an event of a type without a case is taken only then)
-func (w *evWorld) feed(v interface{}) bool {
-	select {
-	case w.chain.events <- v:
-	case <-time.After(stepWait):
-		return false
+func (w *evWorld) feed(v interface{}) bool { return w.give(v) && w.barrier() }
+func (w *evWorld) barrier() bool           { return w.give(struct{}{}) }
+
+// give: false when the loop does not take the value — because it is stuck, or because it PANICKED: onchainLoop's
+// deferred `for range membersEvent` never returns, so a panic inside the loop does not kill the process, the
+// goroutine hangs in its deferred call and the node is wedged. The stacks tell the two apart.
+func (w *evWorld) give(v interface{}) bool {
+	for waited := time.Duration(0); waited < stepWait; waited += 250 * time.Millisecond {
+		select {
+		case w.chain.events <- v:
+			return true
+		case <-time.After(250 * time.Millisecond):
+			if fn := panickedFrame(); fn != "" {
+				panic(loopPanic{fn})
+			}
+		}
 	}
-	return w.barrier()
+	return false
 }
-func (w *evWorld) barrier() bool {
-	select {
-	case w.chain.events <- struct{}{}:
-		return true
-	case <-time.After(stepWait):
-		return false
+
+type loopPanic struct{ fn string }
+
+// panickedFrame: the first repository frame below panic() of a goroutine that is panicking right now
+func panickedFrame() string {
+	buf := make([]byte, 4<<20)
+	n := runtime.Stack(buf, true)
+	for _, g := range strings.Split(string(buf[:n]), "\n\n") {
+		seen := false
+		for _, l := range strings.Split(g, "\n") {
+			if strings.HasPrefix(l, "panic(") {
+				seen = true
+				continue
+			}
+			if seen && !strings.HasPrefix(l, "\t") {
+				if fn := normFrame(l); fn != "" {
+					return fn
+				}
+			}
+		}
+	}
+	return ""
+}
+
+// wedged turns the loopPanic of give into the case's result
+func wedged(impl, oracle *string) {
+	if e := recover(); e != nil {
+		lp, ok := e.(loopPanic)
+		if !ok {
+			panic(e)
+		}
+		*impl = "panic " + lp.fn
+		*oracle = "panic-in-" + lp.fn + ": onchainLoop panicked; its deferred drain of membersEvent keeps the goroutine and the process alive: the node is wedged, not dead"
 	}
 }
 
@@ -369,7 +408,8 @@ func (w *evWorld) stillServes(send func(v interface{}) bool) string {
 	return ""
 }
 
-func opChain(groups, evs string) (string, string) {
+func opChain(groups, evs string) (impl, oracle string) {
+	defer wedged(&impl, &oracle)
 	w := newEvWorld(groups)
 	defer w.cancel()
 	var outs []string
@@ -473,7 +513,8 @@ func rawOf(st *chaindouble.Stack, ev string, n int, removed bool) (types.Log, in
 		TxHash: common.BigToHash(big.NewInt(int64(7000 + n))), BlockHash: bh, Index: uint(n), Removed: removed}, nids
 }
 
-func opChainRaw(groups, evs string) (string, string) {
+func opChainRaw(groups, evs string) (impl, oracle string) {
+	defer wedged(&impl, &oracle)
 	setup()
 	st, err := chaindouble.NewStack(1, 1, big.NewInt(1), 5000000, 1000000000, nil)
 	if err != nil {
@@ -539,7 +580,6 @@ func opChainRaw(groups, evs string) (string, string) {
 			outs = append(outs, w.outcome(t[0], nids, b))
 		}
 	}
-	oracle := ""
 	if !strings.Contains(evs, "X") {
 		oracle = w.stillServes(w.feed)
 	}
